@@ -175,3 +175,77 @@ pub fn record(args: &[String]) {
 	let n = tw.finish();
 	println!("{}", json!({"kind":"summary","events":n}));
 }
+
+
+/// Smallest price >= `from` (dir = +1) / largest price <= `from` (dir = -1) at which a copy of `m` emits a brick, found by
+/// bisection on the float bit patterns (the emission is monotone in the price on either side).
+fn brick_boundary(m: &Renko, from: f64, dir: i32) -> Option<f64> {
+	let emits = |p: f64| -> bool {
+		let mut c = *m;
+		let x = candle(p, p, p, p, 1.0);
+		catch(|| Method::next(&mut c, &x).len() > 0).unwrap_or(false)
+	};
+	if emits(from) {
+		return None;
+	}
+	let mut far = from;
+	for _ in 0..60 {
+		far = if dir > 0 { far * 1.5 } else { far / 1.5 };
+		if emits(far) {
+			break;
+		}
+	}
+	if !emits(far) {
+		return None;
+	}
+	// invariant: !emits(near) && emits(far)
+	let (mut near, mut farb) = (from.to_bits(), far.to_bits());
+	while (if dir > 0 { farb - near } else { near - farb }) > 1 {
+		let mid = if dir > 0 { near + (farb - near) / 2 } else { farb + (near - farb) / 2 };
+		if emits(f64::from_bits(mid)) {
+			farb = mid;
+		} else {
+			near = mid;
+		}
+	}
+	Some(f64::from_bits(farb))
+}
+
+/// `yv renko-snapshot <seed> <programs> <steps>` — C13 for Renko: a restored instance has exactly the same brick boundaries
+/// (probed behaviourally: the first price in either direction at which a brick is emitted), at every step of a stream.
+pub fn renko_snapshot(args: &[String]) {
+	let seed: u64 = arg(args, 0, "seed");
+	let programs: u64 = arg(args, 1, "programs");
+	let steps: u64 = arg(args, 2, "steps");
+	let mut out = Sink::new();
+	let mut rng = Rng::new(seed ^ 0x4e4b0);
+	for _ in 0..programs {
+		let b = *rng.pick(&[0.003, 0.0137, 0.01, 0.25, 0.013, 0.5, 1e-3, 0.0731]);
+		let mut g = Gen::new(rng.u64(), true);
+		let first = g.candle();
+		let Ok(Ok(mut m)) = catch(|| Renko::new((b as ValueType, Source::Close), &first)) else { continue };
+		for i in 0..steps {
+			let x = g.candle();
+			if catch(|| Method::next(&mut m, &x).len()).is_err() {
+				break;
+			}
+			let text = serde_json::to_string(&m).unwrap();
+			let r: Renko = match serde_json::from_str(&text) {
+				Ok(r) => r,
+				Err(e) => {
+					out.mismatch("Renko:snapshot:err", json!({"brick": b, "step": i, "msg": e.to_string()}));
+					break;
+				}
+			};
+			let p = x.close as f64;
+			for dir in [1, -1] {
+				out.checked += 1;
+				let (bo, br) = (brick_boundary(&m, p, dir), brick_boundary(&r, p, dir));
+				if bo.map(f64::to_bits) != br.map(f64::to_bits) {
+					out.mismatch("Renko:snapshot:boundary", json!({"brick": b, "step": i, "direction": dir, "original": bo, "restored": br, "snapshot": text}));
+				}
+			}
+		}
+	}
+	out.summary(json!({"programs": programs}));
+}
